@@ -110,24 +110,25 @@ def _worker(a):
                         out.append("b_to_epsilon gives %s, sym(B0.inv(B)) - I is %s (%s)" % (e.tolist(), eps, tag))
                     cur = eps
                 elif step == "epsilon_to_b":
-                    if n % 2 == 1:
-                        cur = np.array(cur, dtype=float)
-                    b = np.asarray(G(mod.epsilon_to_b, cur, cell0), dtype=float)
-                    if not L.close(b, Bs):
-                        out.append("epsilon_to_b(b_to_epsilon(B)) differs from B by %.3g relative (%s)" %
-                                   (float(np.abs(b - Bs).max() / np.abs(Bs).max()), tag))
+                    # the strain both as a list and as a float64 array (the caller's array must be left alone), every time
+                    for cur_ in ([float(q_) for q_ in cur], np.array(cur, dtype=float)):
+                        b = np.asarray(G(mod.epsilon_to_b, cur_, cell0), dtype=float)
+                        if not L.close(b, Bs):
+                            out.append("epsilon_to_b(b_to_epsilon(B)) differs from B by %.3g relative (%s)" %
+                                       (float(np.abs(b - Bs).max() / np.abs(Bs).max()), tag))
+                            break
                     cur = Bs
                 elif step == "b_to_epsilon_old":
                     cur = list(G(mod.b_to_epsilon_old, cur, cell0))
                     if np.allclose(B, B0) and not L.close(cur, np.zeros(6), scale=1.0):
                         out.append("b_to_epsilon_old of the unstrained B is not zero (%s)" % tag)
                 elif step == "epsilon_to_b_old":
-                    if n % 2 == 0:
-                        cur = np.array(cur, dtype=float)           # the strain as a float64 array: the caller's array must be left alone
-                    b = np.asarray(G(mod.epsilon_to_b_old, cur, cell0), dtype=float)
-                    if not L.close(b, Bs):
-                        out.append("epsilon_to_b_old(b_to_epsilon_old(B)) differs from B by %.3g relative (%s)" %
-                                   (float(np.abs(b - Bs).max() / np.abs(Bs).max()), tag))
+                    for cur_ in ([float(q_) for q_ in cur], np.array(cur, dtype=float)):
+                        b = np.asarray(G(mod.epsilon_to_b_old, cur_, cell0), dtype=float)
+                        if not L.close(b, Bs):
+                            out.append("epsilon_to_b_old(b_to_epsilon_old(B)) differs from B by %.3g relative (%s)" %
+                                       (float(np.abs(b - Bs).max() / np.abs(Bs).max()), tag))
+                            break
                     cur = Bs
                 elif step == "make_ubi":
                     cur = np.linalg.inv(Uex.dot(Bs)) * w1
